@@ -14,7 +14,7 @@ META = {
     "level": "exploration",
     "rule": ("case = [target type descriptor, value descriptor]; distinct by JSON; non-trivial when value "
              "nesting depth >= 2 or it is an array/list/static-array constant with >= 1 element"),
-    "required": ["monitor:inhabits", "monitor:reported-type", "monitor:helper-tag", "monitor:const-load",
+    "required": ["monitor:inhabits", "monitor:reported-type", "monitor:helper-tag", "monitor:const-load", "monitor:program-load",
                  "feature:func-value", "feature:array", "feature:sugar", "monitor:selftest-negative",
                  "monitor:embedded-elements", "feature:one-shot-iterables"],
     "reach": ["hugr.val:Sum.type_", "hugr.val:Function.type_", "hugr.build.dfg:DfBase.load",
@@ -153,6 +153,40 @@ def check_value(ctx, case, stratum="value"):
                      wire.canon(lj["datatype"]), stratum=stratum, case=case)
 
 
+def check_program_loads(ctx, p):
+    """cross-cutting: every `load` of a built program yields a LoadConst whose static port carries
+    ConstKind(T) and whose output has type T, T being the type of the generator's value descriptor"""
+    from hugr import ops, tys
+    from vf.gen.types import wire_ty
+    from vf.interp import Interp
+    from vf.oracles import wire
+
+    it = Interp()
+    it.run(p)
+    for ld, h, td in it.loads:
+        ctx.count("monitor:program-load")
+        exp_t = wire.canon(wire_ty(td))
+        lop = h[ld].op
+        if not isinstance(lop, ops.LoadConst):
+            ctx.disc(None, "load-op", "load()", "LoadConst", repr(lop), stratum="program", case=p)
+            continue
+        ik = h.port_kind(ld.inp(0))
+        ot = h.port_type(ld.out(0))
+        if not isinstance(ik, tys.ConstKind) or wire.canon(dump(ik.ty)) != exp_t:
+            ctx.disc(None, "loadconst-in-kind", "LoadConst.inp(0)", exp_t, repr(ik), stratum="program", case=p)
+        if ot is None or wire.canon(dump(ot)) != exp_t:
+            ctx.disc(None, "loadconst-out-type", "LoadConst.out(0)", exp_t, repr(ot), stratum="program", case=p)
+        srcs = list(h.linked_ports(ld.inp(0)))
+        if len(srcs) != 1 or not isinstance(h[srcs[0].node].op, ops.Const):
+            ctx.disc(None, "load-not-linked-to-const", "LoadConst.inp(0)", "one link from a Const", repr(srcs),
+                     stratum="program", case=p)
+        else:
+            ck = h.port_kind(srcs[0])
+            if not isinstance(ck, tys.ConstKind) or wire.canon(dump(ck.ty)) != exp_t:
+                ctx.disc(None, "const-port-kind", "Const node out(0)", exp_t, repr(ck), stratum="program", case=p)
+    return len(it.loads)
+
+
 def selftest(ctx):
     """The inhabits oracle must reject hand-made ill-typed documents (else inconclusive)."""
     from vf.oracles import wire
@@ -188,6 +222,13 @@ def run(ctx):
 
     if ctx.shard == 0:
         selftest(ctx)
+    from vf.gen.prog import gen_program
+
+    for i in ctx.mine(ctx.n(200, 6000)):
+        r = ctx.rng("program", i)
+        p = gen_program(r, budget=30)
+        nl = ctx.guard("program", p, check_program_loads, ctx, p)
+        ctx.case("program", p, bool(nl) and nl >= 2)
     maxd = ctx.n(3, 5)
     for i in ctx.mine(ctx.n(12000, 400000)):
         r = ctx.rng("value", i)
@@ -206,4 +247,7 @@ def run(ctx):
 
 
 def replay(ctx, rec):
-    check_value(ctx, rec["case"])
+    if rec.get("stratum") == "program":
+        check_program_loads(ctx, rec["case"])
+    else:
+        check_value(ctx, rec["case"])
